@@ -171,3 +171,7 @@ Example C10_example_boundary :
   unforge_key_hash (forge_key_hash (Tz4, repeat x11 19 ++ [x00])) = Ok (Tz4, repeat x11 19 ++ [x00]) /\
   unforge_contract (forge_contract ((KT1, x03 :: repeat x00 19), tx "a%b")) = Ok ((KT1, x03 :: repeat x00 19), tx "a%b").
 Proof. vm_compute. repeat split. Qed.
+
+(* non-vacuity of [text_env] / [type_env]: a 32-byte-output function and the pinned table *)
+Example C10_env_inhabited : type_env (fun _ => repeat x00 32) table43 /\ text_env (fun _ => repeat x00 32) table43.
+Proof. split; [apply type_env43 | apply text_env43]; intro x; reflexivity. Qed.
